@@ -99,6 +99,7 @@ func main() {
 	n := flag.Int("n", 60, "number of topologies")
 	per := flag.Int("lookups", 5, "lookups per topology")
 	remote := flag.Int("remote", 0, "topologies of the remote-fetch mode")
+	slowEvery := flag.Int("slowevery", 4, "every n-th remote topology starts with a slow-server lookup (about 5 s each)")
 	flag.Parse()
 	w := vt.NewWriter(*out)
 	defer w.Close()
@@ -239,6 +240,7 @@ func main() {
 				ev["err"] = err != nil
 				ev["now0"] = int(now0.Sub(t0) / time.Millisecond)
 				ev["now1"] = int(now1.Sub(t0)/time.Millisecond) + 1
+				ev["tfetch"] = ev["now0"]
 			}()
 			var ups, cores, downs []*seg.PathSegment
 			seen := map[string]bool{}
@@ -272,7 +274,7 @@ func main() {
 			d.Close()
 		}
 	}
-	runRemote(ctx, w, *remote, *per, &caseNo)
+	runRemote(ctx, w, *remote, *per, *slowEvery, &caseNo)
 	fmt.Printf("lookups=%d\n", caseNo)
 }
 
